@@ -8,6 +8,7 @@ from typing import List, Optional
 from vlib import chload
 drf = chload.load()
 import digital_rf.digital_rf_hdf5 as H
+chload.warm(H.DigitalRFWriter)
 
 M64 = 1 << 64
 
